@@ -2206,8 +2206,10 @@ class TargetRegistry:
             raise TypeError(f'expected auto_func to be callable, not: {auto_func!r}')
 
         # determine support for any previously known types
-        known_types = set(sum([list(m.keys()) for m
-                               in self._op_type_map.values()], []))
+        # (in registration order, each type once: iterating a set of types would
+        # make the shape of the type tree depend on memory addresses)
+        known_types = list(OrderedDict.fromkeys(
+            t for m in self._op_type_map.values() for t in m))
         # a copy: the handlers are only taken over once all of them are validated
         type_map = OrderedDict(self._op_type_map.get(op_name, ()))
         type_tree = self._op_type_tree.get(op_name, OrderedDict())
